@@ -31,7 +31,7 @@ from coba.environments import filters as ef
 from coba.pipes import Pipes
 from coba.exceptions import CobaExit, CobaException
 
-from vf.lib.c04_pipelines import (defaults_changed, defaults_restore, tiny_env, SRC_LIN, LIN_PAIRS, Built, SHORTCUTS, DUO_PAIRS, DUO_PAIRS_MORE, duo_compatible, apply_shortcut, SOURCES, SRC_BIG, FILTERS, FILTERS_ONE, FILTERS_STATEFUL, build_source, make_filter, compatible,
+from vf.lib.c04_pipelines import (defaults_changed, defaults_restore, tiny_env, SRC_LIN, SRC_ACT, LIN_PAIRS, Built, SHORTCUTS, DUO_PAIRS, DUO_PAIRS_MORE, duo_compatible, apply_shortcut, SOURCES, SRC_BIG, FILTERS, FILTERS_ONE, FILTERS_STATEFUL, build_source, make_filter, compatible,
                                   cinter, cparams, flavour, snapshot, src_mem)
 
 warnings.simplefilter('ignore')
@@ -145,7 +145,8 @@ class C04(Check):
             f'environments (4 | 8 pairs of sources with other data / length / kind) x {len(SHORTCUTS)} facade shortcuts (cache, chunk, materialize, shuffle, take, '
             'slice, scale, impute, sparse, dense, repr, noise, batch, logged, grounded, params, ... and five two-step combinations with cache/chunk) each '
             'applied once to the collection: all histories <=3 | <=4 over {full,p1,params} x {member 0,1}, every member compared with a fresh twin of that '
-            'member alone; parameter objects: 9 LinearSynthetic variants (no context / no action features, reward_features defaulted or caller-passed, direct and '
+            'member alone; action counts: sources with exactly 1 and exactly 2 one-hot actions and two-class nominal labels (3 and more: the other sources), bare '
+            '(complete alphabet <=3 | <=4) and behind each of the 25 filter classes (as for source x 1 filter); parameter objects: 9 LinearSynthetic variants (no context / no action features, reward_features defaulted or caller-passed, direct and '
             'through Environments.from_linear_synthetic) alone (all histories <=2 | <=3) and as the first of two environments in one Environments object next to an '
             'ordinary default-argument environment (13 pairs x {plain, cache()}: all histories <=3 | <=4 over {full,params} x {member 0,1}); after EVERY step of EVERY '
             'history all list/dict/set default-argument objects of coba\'s environment/pipe code must hold what they held at import; save files: one collection '
@@ -224,6 +225,13 @@ class C04(Check):
             for sc in SHORTCUTS:
                 if sc != 'none' and duo_compatible(a, b, sc):
                     yield {'src': a, 'src2': b, 'short': sc, 'duo': True, 'chain': [], 'facade': True}, [(A_FAN, d1, None)]
+        # action-count alphabet: exactly one / exactly two one-hot actions (reward functions whose argmax is a 1- / 2-tuple), two-class
+        # nominal labels; bare and behind every filter class, through every persistence route (pickle, materialize, cache, chunk, save)
+        for facade in (False, True):
+            for s in SRC_ACT:
+                yield {'src': s, 'chain': [], 'facade': facade}, self.plans(facade, d1, deep=False)
+                for f in FILTERS_ONE:
+                    if compatible(s, [f]): yield {'src': s, 'chain': [f], 'facade': facade}, self.plans(facade, d1)
         # caller-owned / defaulted parameter objects: linear synthetic environments without context / action features, reward_features
         # defaulted or passed by the caller; alone, and next to an ordinary environment that relies on the default arguments
         for s in SRC_LIN:
